@@ -75,6 +75,50 @@ Theorem C14_iso_check_sound : forall N K s, iso_b N K s = true -> iso (tlookup N
 Proof. exact iso_b_sound. Qed.
 Print Assumptions C14_iso_check_sound.
 
+(* Tree isomorphism and thread hops together.  For EVERY world whose tasks may be parked
+   anywhere in to_thread/from_thread chains of any depth outside the F14 shape (hwf_task: per
+   task a well-typed hop chain, own frames carrying exactly task.child_nurseries, nothing hidden
+   opening a nursery, the system tasks it continues into being those of cont_of; every nursery
+   context anywhere holding exactly nursery.child_tasks; hereditarily for all children):
+   extract(task, recurse_child_tasks=True) is isomorphic to Trio's tree — every stack shows the
+   nurseries of its task followed by those of the tasks it continues into, each once, in order,
+   with exactly its child tasks by root, recursively — AND its frame series is the splice of
+   its hops.  With cont_of = (fun _ => []) and hop-free frames this is C14_iso. *)
+Theorem C14_iso_hops : forall nurs_of kids_of cont_of run t,
+  hwf_task nurs_of kids_of cont_of t ->
+  iso (nurs_along nurs_of cont_of) kids_of (extract true (RTask run t)) /\
+  match extract true (RTask run t) with Stack _ fs => ids fs = splice_task (task_frames t) end.
+Proof. exact iso_hops_extract. Qed.
+Print Assumptions C14_iso_hops.
+
+(* the same for every child stack of the result: the children ARE ext_child true kid
+   (ext_tasks_map) and hwf_task is hereditary by definition *)
+Theorem C14_iso_hops_child : forall nurs_of kids_of cont_of t,
+  hwf_task nurs_of kids_of cont_of t ->
+  iso (nurs_along nurs_of cont_of) kids_of (ext_child true t) /\
+  match ext_child true t with Stack _ fs => ids fs = splice_task (task_frames t) end.
+Proof. exact iso_hops_child. Qed.
+Print Assumptions C14_iso_hops_child.
+
+Example C14_iso_hops_hyp :
+  hwf_task (tlookup exh_nurs) (tlookup exh_kids) (tlookup exh_cont) exh_tree.
+Proof. exact exh_tree_wf. Qed.
+
+(* the model's one approximation — a to_thread.run_sync frame that ends its segment sees
+   next_inner = None — cannot be observed on ping-pong worlds: with the lookahead explicit and
+   ARBITRARY (walkL lk) the extracted frames are the same *)
+Theorem C14_lookahead_irrelevant : forall lk rc r,
+  (match r with
+   | RTask _ t => pp_task (task_frames t) && f14_free (task_frames t)
+   | RThread _ fs => pp_thread false fs && f14_free fs
+   end) = true ->
+  match r with
+  | RTask run t => fst (walkL lk rc (negb run) base_depth base_depth None (task_frames t))
+  | RThread _ fs => fst (walkL lk rc false base_depth base_depth None fs)
+  end = match extract rc r with Stack _ fs => fs end.
+Proof. exact lookahead_irrelevant. Qed.
+Print Assumptions C14_lookahead_irrelevant.
+
 (* what a passing case of a generated file means: the Stack observed from the real extract()
    equals the model's result on the abstracted world, and (tc_iso) is isomorphic to Trio's tables *)
 Theorem C14_case_sound : forall k, case_ok k = true ->
